@@ -1,6 +1,7 @@
 import Mathlib.Tactic.LinearCombination
 import Mathlib.Tactic.Zify
 import Mathlib.Data.Nat.ModEq
+import Mathlib.Data.Nat.Prime.Defs
 import EdVerif.Proofs.Fiat1
 /-!
 C07 kernel layer, part 2: the Montgomery kernels `fiatScalarMul`, `fiatScalarToMontgomery`,
@@ -44,6 +45,17 @@ theorem qRow (q x22 x23 x24 x25 x26 x27 x28 x29 x30 : Nat) (hq : q < 2^64)
     x26 + x28 * 2^64 + x30 * 2^128 + x22 * 2^192 + x23 * 2^256 = q * 7237005577332262213973186563042994240857116359379907606001950938285454250989 ∧
     x26 < 2^64 ∧ x28 < 2^64 ∧ x30 < 2^64 ∧ x22 < 2^64 ∧ x23 < 2^60 := by
   refine ⟨by omega, by omega, by omega, by omega, by omega, by omega⟩
+
+/-- the third word of the q × l row is small -/
+theorem qRow_v2 (q x24 x25 x27 x29 x30 : Nat) (hq : q < 2^64)
+    (h25 : x25 = (q * 1503914060200516822) / 2^64) (h24 : x24 = (q * 1503914060200516822) % 2^64)
+    (h27 : x27 = (q * 6346243789798364141) / 2^64)
+    (h29 : x29 = (x27 + x24 + 0) / 2^64) (h30 : x30 = (x29 + x25) % 2^64) :
+    x30 ≤ 1503914060200516822 := by
+  have a : x25 ≤ 1503914060200516821 := by omega
+  have b : x29 ≤ 1 := by omega
+  clear h25 h24 h27 h29 hq
+  omega
 
 theorem montCancel (x q l : Nat) (hq : q = (x * 15183074304973897243) % 2^64) (hl : l = (q * 6346243789798364141) % 2^64) :
     (x + l) % 2^64 = 0 := by
@@ -198,6 +210,9 @@ theorem qrowF_spec (q : Nat) (hq : q < 2^64) :
   refine ⟨⟨r0, r1, r2, r3, Nat.lt_trans r4 (by norm_num)⟩, r4, ?_⟩
   rw [L_lit]
   exact row
+
+theorem qrowF_v2 (q : Nat) (hq : q < 2^64) : (qrowF q).v2 ≤ 1503914060200516822 := by
+  exact Mont.qRow_v2 q _ _ _ _ _ hq rfl rfl rfl rfl rfl
 
 /-- the low word cancels -/
 theorem qcancel (x : Nat) : (x + (qrowF (qF x)).v0) % 2^64 = 0 :=
@@ -356,5 +371,327 @@ theorem fiatMul_spec (o x y : W4) (hx : Inv x) (hy : Inv y) :
 
 theorem fiatMul_receiver (o o' x y : W4) : Fiat.fiatScalarMul o x y = Fiat.fiatScalarMul o' x y := by
   rw [fiatScalarMul_eq, fiatScalarMul_eq]
+
+
+/-! ### `fiatScalarToMontgomery` (multiplication by `R² mod l`) -/
+
+/-- `2^512 mod l`, as words -/
+def toMontB : W4 := ⟨11819153939886771969, 14991950615390032711, 14910419812499177061, 259310039853996605⟩
+
+def tmStep0 (a : Nat) : W4 :=
+  let r := rowF a toMontB
+  let m := qrowF (qF r.v0)
+  let t := red4 ⟨r.v0, r.v1, r.v2, r.v3⟩ m
+  ⟨t.w0, t.w1, t.w2, U.add 64 (U.add 64 t.w3 r.v4) m.v4⟩
+
+def tmStep (a : Nat) (c : W4) : W4 :=
+  let r := rowF a toMontB
+  let s := acc4 c r
+  let m := qrowF (qF s.1.w0)
+  let t := red4 s.1 m
+  ⟨t.w0, t.w1, t.w2, U.add 64 (U.add 64 t.w3 (U.add 64 s.2 r.v4)) m.v4⟩
+
+def w4to5 (t : W4) : W5 := ⟨t.w0, t.w1, t.w2, t.w3, 0⟩
+
+set_option maxRecDepth 100000 in
+theorem fiatScalarToMontgomery_eq (o x : W4) : Fiat.fiatScalarToMontgomery o x =
+    csub (w4to5 (tmStep x.w3 (tmStep x.w2 (tmStep x.w1 (tmStep0 x.w0))))) := by
+  kernel_rfl
+
+theorem toMontB_words : Words toMontB := by
+  refine ⟨?_, ?_, ?_, ?_⟩ <;> decide
+theorem toMontB_lt : eval toMontB < L := by decide
+set_option exponentiation.threshold 600 in
+theorem toMontB_mod : eval toMontB = 2^512 % L := by decide
+
+theorem v4_bound (r0 r1 r2 r3 r4 AB : Nat)
+    (re : r0 + r1 * 2^64 + r2 * 2^128 + r3 * 2^192 + r4 * 2^256 = AB)
+    (h1 : AB ≤ (2^64 - 1) * 1627715501170711445284395025044413883736156588369414752970002579683115011841) :
+    r4 ≤ 259310039853996605 := by
+  omega
+
+/-- the top word of the `a × toMontB` row is small -/
+theorem rowF_toMontB_v4 (a : Nat) (ha : a < 2^64) : (rowF a toMontB).v4 ≤ 259310039853996605 := by
+  obtain ⟨_, re⟩ := rowF_spec a toMontB ha toMontB_words
+  have hB : eval toMontB = 1627715501170711445284395025044413883736156588369414752970002579683115011841 := by
+    decide
+  have h1 : a * eval toMontB ≤ (2^64 - 1) * eval toMontB := Nat.mul_le_mul_right _ (by omega)
+  rw [hB] at h1
+  exact v4_bound _ _ _ _ _ _ re h1
+
+theorem tmStep_key (t : W4) (r4 m4 sc C S R0123 M0123 : Nat)
+    (t3 : t.w3 ≤ 1) (hsc : sc ≤ 1) (hr4 : r4 ≤ 259310039853996605) (hm4 : m4 < 2^60)
+    (se : S + sc * 2^256 = C + R0123) (te : eval t * 2^64 = S + M0123) :
+    eval ⟨t.w0, t.w1, t.w2, U.add 64 (U.add 64 t.w3 (U.add 64 sc r4)) m4⟩ * 2^64 =
+        C + (R0123 + r4 * 2^256) + (M0123 + m4 * 2^256) ∧
+      U.add 64 (U.add 64 t.w3 (U.add 64 sc r4)) m4 < 2^64 := by
+  obtain ⟨t0, t1, t2, t3'⟩ := t
+  simp only [Scalar.eval, U.add] at *
+  have e1 : (sc + r4) % 2^64 = sc + r4 := by omega
+  have e2 : (t3' + (sc + r4)) % 2^64 = t3' + (sc + r4) := by omega
+  have e3 : (t3' + (sc + r4) + m4) % 2^64 = t3' + (sc + r4) + m4 := by omega
+  rw [e1, e2, e3]
+  omega
+
+theorem tmStep0_key (t : W4) (r4 m4 S M0123 : Nat)
+    (t3 : t.w3 ≤ 1) (hr4 : r4 ≤ 259310039853996605) (hm4 : m4 < 2^60)
+    (te : eval t * 2^64 = S + M0123) :
+    eval ⟨t.w0, t.w1, t.w2, U.add 64 (U.add 64 t.w3 r4) m4⟩ * 2^64 =
+        (S + r4 * 2^256) + (M0123 + m4 * 2^256) ∧
+      U.add 64 (U.add 64 t.w3 r4) m4 < 2^64 := by
+  obtain ⟨t0, t1, t2, t3'⟩ := t
+  simp only [Scalar.eval, U.add] at *
+  have e2 : (t3' + r4) % 2^64 = t3' + r4 := by omega
+  have e3 : (t3' + r4 + m4) % 2^64 = t3' + r4 + m4 := by omega
+  rw [e2, e3]
+  omega
+
+theorem tmStep0_spec (a : Nat) (ha : a < 2^64) :
+    Words (tmStep0 a) ∧ eval (tmStep0 a) < L + eval toMontB ∧
+      ∃ q, eval (tmStep0 a) * 2^64 = a * eval toMontB + q * L := by
+  obtain ⟨rw_, re⟩ := rowF_spec a toMontB ha toMontB_words
+  have r4 := rowF_toMontB_v4 a ha
+  have hq := qF_lt (rowF a toMontB).v0
+  obtain ⟨mw, m4, me⟩ := qrowF_spec _ hq
+  obtain ⟨t0, t1, t2, t3, te⟩ := red4_spec ⟨(rowF a toMontB).v0, (rowF a toMontB).v1, (rowF a toMontB).v2,
+    (rowF a toMontB).v3⟩ _ ⟨rw_.1, rw_.2.1, rw_.2.2.1, rw_.2.2.2.1⟩ mw (qcancel _)
+  obtain ⟨key, k4⟩ := tmStep0_key _ _ _ _ _ t3 r4 m4 te
+  have key' : eval (tmStep0 a) * 2^64 = a * eval toMontB + qF (rowF a toMontB).v0 * L := by
+    rw [← re, ← me]
+    exact key
+  refine ⟨⟨t0, t1, t2, k4⟩, ?_, _, key'⟩
+  have hLpos : 0 < L := by decide
+  exact step_bound _ 0 _ _ a _ (eval toMontB) L ha hq rfl rfl
+    (Nat.lt_of_lt_of_le hLpos (Nat.le_add_right _ _)) (by rw [key', Nat.zero_add])
+
+theorem tmStep_spec (a : Nat) (c : W4) (ha : a < 2^64) (hc : Words c) (hT : eval c < L + eval toMontB) :
+    Words (tmStep a c) ∧ eval (tmStep a c) < L + eval toMontB ∧
+      ∃ q, eval (tmStep a c) * 2^64 = eval c + a * eval toMontB + q * L := by
+  obtain ⟨rw_, re⟩ := rowF_spec a toMontB ha toMontB_words
+  have r4 := rowF_toMontB_v4 a ha
+  obtain ⟨sw, sc, se⟩ := acc4_spec c _ hc rw_
+  have hq := qF_lt (acc4 c (rowF a toMontB)).1.w0
+  obtain ⟨mw, m4, me⟩ := qrowF_spec _ hq
+  obtain ⟨t0, t1, t2, t3, te⟩ := red4_spec _ _ sw mw (qcancel _)
+  obtain ⟨key, k4⟩ := tmStep_key _ _ _ _ _ _ _ _ t3 sc r4 m4 se te
+  have key' : eval (tmStep a c) * 2^64 =
+      eval c + a * eval toMontB + qF (acc4 c (rowF a toMontB)).1.w0 * L := by
+    rw [← re, ← me]
+    exact key
+  refine ⟨⟨t0, t1, t2, k4⟩, ?_, _, key'⟩
+  exact step_bound _ _ _ _ a _ (eval toMontB) L ha hq rfl rfl hT key'
+
+theorem coprime_L_R : Nat.Coprime L (2^256) := by
+  apply Nat.Coprime.pow_right
+  apply Nat.Coprime.symm
+  rw [Nat.Prime.coprime_iff_not_dvd Nat.prime_two]
+  decide
+
+/-- general form: only the word bounds of `x` are needed -/
+theorem toMontgomery_spec' (o x : W4) (hx : Words x) :
+    Inv (Fiat.fiatScalarToMontgomery o x) ∧
+      eval (Fiat.fiatScalarToMontgomery o x) % L = (eval x * 2^256) % L := by
+  rw [fiatScalarToMontgomery_eq]
+  obtain ⟨w1, b1, q0, e1⟩ := tmStep0_spec x.w0 hx.1
+  obtain ⟨w2, b2, q1, e2⟩ := tmStep_spec x.w1 _ hx.2.1 w1 b1
+  obtain ⟨w3, b3, q2, e3⟩ := tmStep_spec x.w2 _ hx.2.2.1 w2 b2
+  obtain ⟨w4, b4, q3, e4⟩ := tmStep_spec x.w3 _ hx.2.2.2 w3 b3
+  have comb := mont_combine _ _ _ _ _ _ _ _ _ _ _ _ _ _ e1 e2 e3 e4
+  have hBl := toMontB_lt
+  generalize tmStep x.w3 (tmStep x.w2 (tmStep x.w1 (tmStep0 x.w0))) = T at *
+  have h5 : eval5 (w4to5 T) = eval T := by
+    simp only [w4to5, eval5, Scalar.eval]; omega
+  obtain ⟨ci, ce⟩ := csub_spec (w4to5 T) ⟨w4.1, w4.2.1, w4.2.2.1, w4.2.2.2, (by decide : (0:Nat) < 2^64)⟩ (by rw [h5]; omega)
+  refine ⟨ci, ?_⟩
+  rw [ce, h5, Nat.mod_mod]
+  -- cancel `2^256`
+  have hmod : eval T * 2^256 ≡ (eval x * 2^256) * 2^256 [MOD L] := by
+    unfold Nat.ModEq
+    rw [comb]
+    show (eval x * eval toMontB + _ * L) % L = _
+    rw [Nat.add_mul_mod_self_right, toMontB_mod, Nat.mul_mod_mod, Nat.mul_assoc, ← pow_add]
+  exact Nat.ModEq.cancel_right_of_coprime coprime_L_R hmod
+
+theorem toMontgomery_spec (o x : W4) (hx : Inv x) :
+    Inv (Fiat.fiatScalarToMontgomery o x) ∧
+      eval (Fiat.fiatScalarToMontgomery o x) % L = (eval x * 2^256) % L :=
+  toMontgomery_spec' o x (inv_words hx)
+
+theorem toMontgomery_receiver (o o' x : W4) :
+    Fiat.fiatScalarToMontgomery o x = Fiat.fiatScalarToMontgomery o' x := by
+  rw [fiatScalarToMontgomery_eq, fiatScalarToMontgomery_eq]
+
+
+/-! ### `fiatScalarFromMontgomery` (multiplication by `1`) -/
+
+def fmStep0 (a : Nat) : W4 :=
+  let m := qrowF (qF a)
+  let c0 := (Bits.Add64 a m.v0 0).2
+  let a1 := Bits.Add64 0 m.v1 c0
+  ⟨a1.1, U.add 64 a1.2 m.v2, m.v3, m.v4⟩
+
+/-- add the `q·l` row to the prepared words `s` and shift -/
+def fmFinish (s : W4) : W4 :=
+  let m := qrowF (qF s.w0)
+  let t := red4 s m
+  ⟨t.w0, t.w1, t.w2, U.add 64 t.w3 m.v4⟩
+
+def fmStep1 (a : Nat) (c : W4) : W4 :=
+  let a0 := Bits.Add64 c.w0 a 0
+  fmFinish ⟨a0.1, U.add 64 a0.2 c.w1, c.w2, c.w3⟩
+
+def fmStep (a : Nat) (c : W4) : W4 :=
+  let a0 := Bits.Add64 c.w0 a 0
+  let a1 := Bits.Add64 c.w1 0 a0.2
+  let a2 := Bits.Add64 c.w2 0 a1.2
+  fmFinish ⟨a0.1, a1.1, a2.1, U.add 64 a2.2 c.w3⟩
+
+set_option maxRecDepth 100000 in
+theorem fiatScalarFromMontgomery_eq (o x : W4) : Fiat.fiatScalarFromMontgomery o x =
+    csub (w4to5 (fmStep x.w3 (fmStep x.w2 (fmStep1 x.w1 (fmStep0 x.w0))))) := by
+  kernel_rfl
+
+theorem fmStep0_core (a m0 m1 m2 m3 m4 c0 x14 x15 : Nat) (ha : a < 2^64)
+    (d0 : m0 < 2^64) (d1 : m1 < 2^64) (d2 : m2 ≤ 1503914060200516822)
+    (hz : (a + m0) % 2^64 = 0)
+    (h0 : c0 = (a + m0 + 0) / 2^64) (h14 : x14 = (0 + m1 + c0) % 2^64) (h15 : x15 = (0 + m1 + c0) / 2^64) :
+    (x14 + (x15 + m2) % 2^64 * 2^64 + m3 * 2^128 + m4 * 2^192) * 2^64 =
+        a + (m0 + m1 * 2^64 + m2 * 2^128 + m3 * 2^192 + m4 * 2^256) ∧
+      x14 < 2^64 ∧ (x15 + m2) % 2^64 ≤ 1503914060200516823 := by
+  have e : (x15 + m2) % 2^64 = x15 + m2 := by omega
+  rw [e]
+  refine ⟨by omega, by omega, by omega⟩
+
+theorem fmStep0_spec (a : Nat) (ha : a < 2^64) :
+    Words (fmStep0 a) ∧ (fmStep0 a).w1 ≤ 1503914060200516823 ∧ eval (fmStep0 a) < L + 1 ∧
+      ∃ q, eval (fmStep0 a) * 2^64 = a * 1 + q * L := by
+  have hq := qF_lt a
+  obtain ⟨mw, m4, me⟩ := qrowF_spec _ hq
+  have m2 := qrowF_v2 _ hq
+  obtain ⟨key, k0, k1⟩ := fmStep0_core a _ _ _ _ _ _ _ _ ha mw.1 mw.2.1 m2 (qcancel a) rfl rfl rfl
+  have key' : eval (fmStep0 a) * 2^64 = a * 1 + qF a * L := by
+    rw [← me, Nat.mul_one]
+    exact key
+  refine ⟨⟨k0, Nat.lt_of_le_of_lt k1 (by norm_num), mw.2.2.2.1, Nat.lt_trans m4 (by norm_num)⟩, k1, ?_, _, key'⟩
+  have hLpos : 0 < L := by decide
+  exact step_bound _ 0 _ _ a _ 1 L ha hq rfl rfl
+    (Nat.lt_of_lt_of_le hLpos (Nat.le_add_right _ _)) (by rw [key', Nat.zero_add])
+
+theorem fmFinish_key (t : W4) (m4 S M0123 : Nat) (t3 : t.w3 ≤ 1) (hm4 : m4 < 2^60)
+    (te : eval t * 2^64 = S + M0123) :
+    eval ⟨t.w0, t.w1, t.w2, U.add 64 t.w3 m4⟩ * 2^64 = S + (M0123 + m4 * 2^256) ∧
+      U.add 64 t.w3 m4 < 2^64 := by
+  obtain ⟨t0, t1, t2, t3'⟩ := t
+  simp only [Scalar.eval, U.add] at *
+  have e2 : (t3' + m4) % 2^64 = t3' + m4 := by omega
+  rw [e2]
+  omega
+
+theorem fmFinish_spec (s : W4) (hs : Words s) :
+    Words (fmFinish s) ∧ eval (fmFinish s) * 2^64 = eval s + qF s.w0 * L := by
+  have hq := qF_lt s.w0
+  obtain ⟨mw, m4, me⟩ := qrowF_spec _ hq
+  obtain ⟨t0, t1, t2, t3, te⟩ := red4_spec s _ hs mw (qcancel _)
+  obtain ⟨key, k4⟩ := fmFinish_key _ _ _ _ t3 m4 te
+  refine ⟨⟨t0, t1, t2, k4⟩, ?_⟩
+  rw [← me]
+  exact key
+
+theorem fmStep1_core (c0 c1 c2 c3 a x16 x17 : Nat) (ha : a < 2^64) (h0 : c0 < 2^64)
+    (h1 : c1 ≤ 1503914060200516823)
+    (h16 : x16 = (c0 + a + 0) % 2^64) (h17 : x17 = (c0 + a + 0) / 2^64) :
+    x16 + (x17 + c1) % 2^64 * 2^64 + c2 * 2^128 + c3 * 2^192 =
+        (c0 + c1 * 2^64 + c2 * 2^128 + c3 * 2^192) + a ∧
+      x16 < 2^64 ∧ (x17 + c1) % 2^64 < 2^64 := by
+  have e : (x17 + c1) % 2^64 = x17 + c1 := by omega
+  rw [e]
+  refine ⟨by omega, by omega, by omega⟩
+
+theorem fmStep1_spec (a : Nat) (c : W4) (ha : a < 2^64) (hc : Words c) (hc1 : c.w1 ≤ 1503914060200516823)
+    (hT : eval c < L + 1) :
+    Words (fmStep1 a c) ∧ eval (fmStep1 a c) < L + 1 ∧
+      ∃ q, eval (fmStep1 a c) * 2^64 = eval c + a * 1 + q * L := by
+  obtain ⟨c0, c1, c2, c3⟩ := c
+  obtain ⟨h0, h1, h2, h3⟩ := hc
+  simp only at h0 h1 h2 h3 hc1
+  obtain ⟨se, s0, s1⟩ := fmStep1_core c0 c1 c2 c3 a _ _ ha h0 hc1 rfl rfl
+  obtain ⟨fw, fe⟩ := fmFinish_spec ⟨(Bits.Add64 c0 a 0).1, U.add 64 (Bits.Add64 c0 a 0).2 c1, c2, c3⟩
+    ⟨s0, s1, h2, h3⟩
+  have key : eval (fmStep1 a ⟨c0, c1, c2, c3⟩) * 2^64 =
+      eval ⟨c0, c1, c2, c3⟩ + a * 1 + qF (Bits.Add64 c0 a 0).1 * L := by
+    rw [Nat.mul_one]
+    show _ = (c0 + c1 * 2^64 + c2 * 2^128 + c3 * 2^192) + a + _
+    rw [← se]
+    exact fe
+  exact ⟨fw, step_bound _ _ _ _ a _ 1 L ha (qF_lt _) rfl rfl hT key, _, key⟩
+
+theorem fmStep_core (c0 c1 c2 c3 a x36 x37 x38 x39 x40 x41 : Nat) (ha : a < 2^64) (h0 : c0 < 2^64)
+    (h1 : c1 < 2^64) (h2 : c2 < 2^64) (h3 : c3 ≤ 1152921504606846976)
+    (h36 : x36 = (c0 + a + 0) % 2^64) (h37 : x37 = (c0 + a + 0) / 2^64)
+    (h38 : x38 = (c1 + 0 + x37) % 2^64) (h39 : x39 = (c1 + 0 + x37) / 2^64)
+    (h40 : x40 = (c2 + 0 + x39) % 2^64) (h41 : x41 = (c2 + 0 + x39) / 2^64) :
+    x36 + x38 * 2^64 + x40 * 2^128 + (x41 + c3) % 2^64 * 2^192 =
+        (c0 + c1 * 2^64 + c2 * 2^128 + c3 * 2^192) + a ∧
+      x36 < 2^64 ∧ x38 < 2^64 ∧ x40 < 2^64 ∧ (x41 + c3) % 2^64 < 2^64 := by
+  have e : (x41 + c3) % 2^64 = x41 + c3 := by omega
+  rw [e]
+  refine ⟨by omega, by omega, by omega, by omega, by omega⟩
+
+theorem top_le (c0 c1 c2 c3 : Nat)
+    (h : c0 + c1 * 2^64 + c2 * 2^128 + c3 * 2^192 <
+      7237005577332262213973186563042994240857116359379907606001950938285454250989 + 1) :
+    c3 ≤ 1152921504606846976 := by
+  omega
+
+theorem fmStep_spec (a : Nat) (c : W4) (ha : a < 2^64) (hc : Words c) (hT : eval c < L + 1) :
+    Words (fmStep a c) ∧ eval (fmStep a c) < L + 1 ∧
+      ∃ q, eval (fmStep a c) * 2^64 = eval c + a * 1 + q * L := by
+  obtain ⟨c0, c1, c2, c3⟩ := c
+  obtain ⟨h0, h1, h2, h3⟩ := hc
+  simp only at h0 h1 h2 h3
+  have h3' : c3 ≤ 1152921504606846976 := by
+    have := hT; rw [L_lit] at this
+    exact top_le c0 c1 c2 c3 this
+  obtain ⟨se, s0, s1, s2, s3⟩ := fmStep_core c0 c1 c2 c3 a _ _ _ _ _ _ ha h0 h1 h2 h3' rfl rfl rfl rfl rfl rfl
+  obtain ⟨fw, fe⟩ := fmFinish_spec ⟨(Bits.Add64 c0 a 0).1, (Bits.Add64 c1 0 (Bits.Add64 c0 a 0).2).1,
+    (Bits.Add64 c2 0 (Bits.Add64 c1 0 (Bits.Add64 c0 a 0).2).2).1,
+    U.add 64 (Bits.Add64 c2 0 (Bits.Add64 c1 0 (Bits.Add64 c0 a 0).2).2).2 c3⟩ ⟨s0, s1, s2, s3⟩
+  have key : eval (fmStep a ⟨c0, c1, c2, c3⟩) * 2^64 =
+      eval ⟨c0, c1, c2, c3⟩ + a * 1 + qF (Bits.Add64 c0 a 0).1 * L := by
+    rw [Nat.mul_one]
+    show _ = (c0 + c1 * 2^64 + c2 * 2^128 + c3 * 2^192) + a + _
+    rw [← se]
+    exact fe
+  exact ⟨fw, step_bound _ _ _ _ a _ 1 L ha (qF_lt _) rfl rfl hT key, _, key⟩
+
+/-- general form: only the word bounds of `x` are needed -/
+theorem fromMontgomery_spec' (o x : W4) (hx : Words x) :
+    Inv (Fiat.fiatScalarFromMontgomery o x) ∧
+      (eval (Fiat.fiatScalarFromMontgomery o x) * 2^256) % L = eval x % L := by
+  rw [fiatScalarFromMontgomery_eq]
+  obtain ⟨w1, c1, b1, q0, e1⟩ := fmStep0_spec x.w0 hx.1
+  obtain ⟨w2, b2, q1, e2⟩ := fmStep1_spec x.w1 _ hx.2.1 w1 c1 b1
+  obtain ⟨w3, b3, q2, e3⟩ := fmStep_spec x.w2 _ hx.2.2.1 w2 b2
+  obtain ⟨w4, b4, q3, e4⟩ := fmStep_spec x.w3 _ hx.2.2.2 w3 b3
+  have comb := mont_combine _ _ _ _ _ _ _ _ _ _ _ _ _ _ e1 e2 e3 e4
+  generalize fmStep x.w3 (fmStep x.w2 (fmStep1 x.w1 (fmStep0 x.w0))) = T at *
+  have h5 : eval5 (w4to5 T) = eval T := by
+    simp only [w4to5, eval5, Scalar.eval]; omega
+  have hL1 : 1 ≤ L := by decide
+  obtain ⟨ci, ce⟩ := csub_spec (w4to5 T) ⟨w4.1, w4.2.1, w4.2.2.1, w4.2.2.2, (by decide : (0:Nat) < 2^64)⟩
+    (by rw [h5]; omega)
+  refine ⟨ci, ?_⟩
+  rw [ce, h5, Nat.mod_mul_mod, comb, Nat.mul_one]
+  show (eval x + _ * L) % L = _
+  rw [Nat.add_mul_mod_self_right]
+
+theorem fromMontgomery_spec (o x : W4) (hx : Inv x) :
+    Inv (Fiat.fiatScalarFromMontgomery o x) ∧
+      (eval (Fiat.fiatScalarFromMontgomery o x) * 2^256) % L = eval x % L :=
+  fromMontgomery_spec' o x (inv_words hx)
+
+theorem fromMontgomery_receiver (o o' x : W4) :
+    Fiat.fiatScalarFromMontgomery o x = Fiat.fiatScalarFromMontgomery o' x := by
+  rw [fiatScalarFromMontgomery_eq, fiatScalarFromMontgomery_eq]
 
 end EdVerif.Proofs
